@@ -517,6 +517,12 @@ def call_method(I, recv, name, args, kwargs):
         if name == 'issubset':
             d = I.set_op('diff', recv, args[0])
             return _not(I.truth(d))
+        if name == 'issuperset':
+            d = I.set_op('diff', args[0] if isinstance(args[0], (set, frozenset, SSet)) else I.make_set(I.iterate(args[0])), recv)
+            return _not(I.truth(d))
+        if name == 'isdisjoint':
+            d = I.set_op('inter', recv, args[0] if isinstance(args[0], (set, frozenset, SSet)) else I.make_set(I.iterate(args[0])))
+            return _not(I.truth(d))
         if name in ('update', 'add', 'discard', 'remove', 'clear'):
             I.note_write(recv, f'set.{name}')
             if isinstance(recv, set):
